@@ -125,6 +125,7 @@ def check_tree(ws, interps, tree, out):
             viols.append({"desc": "interpreter %s died (exit %r)" % (interp, ex.returncode), "interp": interp})
             continue
         out.per_interp[interp] += 1
+        T.PY39[0] = interp == "3.9"
         v = judge(tree, res)
         if v:
             viols.append({"desc": "%s on %s" % (v, interp), "interp": interp})
